@@ -121,7 +121,7 @@ C01Cases == OneVarCases \cup SpecialCases
 NearClasses == {"near12", "near10", "near8", "near6", "near5", "near4", "near3", "near2", "near1"}
 PairClassesFab == {"generic", "equal", "bothOne", "winOneIn", "winOneEdge", "xOne", "xNearOne", "bothSmall", "smallApart", "hier", "zeroLarge"}
                   \cup NearClasses
-QuotClasses == {"generic", "equal", "equalQuarter", "equalLarge", "equalSmall", "xZero", "apart3", "crossQuarter", "large", "small"}
+QuotClasses == {"generic", "equal", "equalQuarter", "equalNearQuarter", "equalLarge", "equalSmall", "xZero", "apart3", "crossQuarter", "large", "small"}
 TripleClassesI == {"generic", "allEqual", "twoEqualLo", "twoEqualHi", "allNear", "oneIsMax", "oneZero", "twoZero", "allZero", "hier"} \cup NearClasses
 \* oneTiny: one ratio below qdrt_eps (2.2e-4, small-argument expansions l0v / lv0) and the other of order one
 TripleClassesPhi == {"generic", "kallenPos", "kallenNeg", "kallenZero", "pairEqual", "pairNear", "uOne", "allEqual", "smallUV", "hier", "oneTiny",
